@@ -171,10 +171,10 @@ def dispatchValue : String → List Val → Option Val
   | "value.dots_exact", [v, int n] => (ratOf v).map fun q => ratVal (Value.dotsExact q n.toNat)
   | "value.tuplet", [v, int a, int b] => (ratOf v).map fun q => ratVal (Value.tuplet q a.toNat b.toNat)
   | "value.add", [a, b] => match ratOf a, ratOf b with
-      | some x, some y => some (ratVal (Value.add x y))
+      | some x, some y => some (match Value.addF x y with | .ok r => ratVal r | .error e => .err e)
       | _, _ => Option.none
   | "value.subtract", [a, b] => match ratOf a, ratOf b with
-      | some x, some y => some (ratVal (Value.subtract x y))
+      | some x, some y => some (match Value.subtractF x y with | .ok r => ratVal r | .error e => .err e)
       | _, _ => Option.none
   | "meter.valid_beat_duration", [v] => (numOf v).map fun n => toVal (Value.validBeat n)
   | "meter.is_valid", [int c, v] => (numOf v).map fun n => toVal (Value.isValid c n)
